@@ -240,6 +240,8 @@ def obligation_record(ob):
             spec = refute.replay_spec(ob)
             if spec is not None:
                 d['replay'] = spec
+            else:
+                d['replay_why'] = getattr(ob, 'replay_why', None)
         except Exception as e:      # decoding is best effort: never a verdict
             d['replay_error'] = str(e)[:200]
     if ob.status in ('refuted', 'unknown'):
